@@ -663,6 +663,24 @@ func (v *Validator) getEntityTypesIn(target types.EntityType) (res []types.Entit
 
 func (v *Validator) getEntityTypesInUncached(target types.EntityType) []types.EntityType {'''))
 
+# ---- C16
+mut("C16", "common-type-cycle-check-removed", ("x/exp/schema/resolved/resolve.go", '''	if err := r.detectCommonTypeCycles(); err != nil {
+		return nil, err
+	}''', '''	_ = r.detectCommonTypeCycles'''))
+mut("C16", "action-cycle-check-removed", ("x/exp/schema/resolved/resolve.go", '''		case 1:
+			return fmt.Errorf("cycle detected in action hierarchy involving %s", uid)''', '''		case 1:
+			return nil'''))
+mut("C16", "typeofvalue-asserts-entity", ("x/exp/schema/validate/typechecker.go", '''		case types.Record:
+			elems := make([]ast.RecordElementNode, 0, val.Len())''', '''		case types.Record:
+			if val.Len() == 0 {
+				break
+			}
+			elems := make([]ast.RecordElementNode, 0, val.Len())'''))
+mut("C16", "descendant-no-visited", ("x/exp/schema/validate/cedar_type.go", '''	if visited[childType] {
+		return false
+	}''', ''''''))
+mut("C16", "request-nil-appliesto", ("x/exp/schema/validate/request.go", '''	if action.AppliesTo == nil || !slices.Contains(action.AppliesTo.Principals, req.Principal.Type) {''', '''	if !slices.Contains(action.AppliesTo.Principals, req.Principal.Type) {'''))
+
 # ---- C20
 mut("C20", "unmarshal-merges", ("policy_set.go", """	*p = PolicySet{
 		policies: make(PolicyMap, len(jsonPolicySet.StaticPolicies)),
